@@ -24,7 +24,7 @@ RULE = (
     "valid generated histories and their overdraft mutants: a debit inflated by {2e-10,1e-9,1e-6,1e-3,0.5,3}, by dust 5e-11 "
     "(unspecified zone), a debit moved before its funding (transient overdraft later refilled), a debit moved to another "
     "account that does not hold the coins, a debit leaving its account 1e-11..5e-11 below zero followed by a real overdraft of that account, "
-    "(CLI) an acquisition whose crypto fee exceeds what its account holds, rows shuffled so that sheet order != time order; x {-n off, -n on} x to-dates "
+    "(CLI) an acquisition whose crypto fee exceeds what its account holds, legs of one transaction at one instant (same unique id vs distinct ids: same verdict), rows shuffled so that sheet order != time order; x {-n off, -n on} x to-dates "
     "before / after the overdraft x from-dates and from+to windows (balances cover all history up to the to-date, so a "
     "from-date never changes the verdict). Oracle per history: must-reject (an account is below -1e-10 once all rows of an instant are "
     "applied) / must-accept (no ordering of same-instant rows can overdraw) / unspecified (never alarms). Non-trivial = "
@@ -36,8 +36,8 @@ ASSUMPTIONS = [
     "inside one instant acquisitions are credited first, then transfers, then out-transactions are debited (as the pinned tree does): a disposal funded by a transfer of the same instant must be accepted",
 ]
 SETTINGS: Dict[str, Dict[str, Any]] = {
-    "quick": {"cases": 1600, "cli_cases": 48, "budget_s": 45, "minimums": {"must_reject_runs": 800, "must_accept_runs": 1500, "with_n_negative_reported": 300, "nontrivial": 800, "cli_runs": 8, "runs_with_from_date": 1500, "same_instant_transfer_then_sale_cases": 100, "dust_then_real_overdraft_runs": 700, "cli_runs_with_in_fee_overdraft": 3}},
-    "thorough": {"cases": 60000, "cli_cases": 300, "budget_s": 300, "minimums": {"must_reject_runs": 30000, "must_accept_runs": 60000, "with_n_negative_reported": 10000, "nontrivial": 30000, "cli_runs": 150, "runs_with_from_date": 50000, "same_instant_transfer_then_sale_cases": 3000, "dust_then_real_overdraft_runs": 20000, "cli_runs_with_in_fee_overdraft": 15}},
+    "quick": {"cases": 1600, "cli_cases": 48, "budget_s": 45, "minimums": {"must_reject_runs": 800, "must_accept_runs": 1500, "with_n_negative_reported": 300, "nontrivial": 800, "cli_runs": 8, "runs_with_from_date": 1500, "same_instant_transfer_then_sale_cases": 100, "dust_then_real_overdraft_runs": 700, "cli_runs_with_in_fee_overdraft": 3, "unique_id_independence_pairs": 100}},
+    "thorough": {"cases": 60000, "cli_cases": 300, "budget_s": 300, "minimums": {"must_reject_runs": 30000, "must_accept_runs": 60000, "with_n_negative_reported": 10000, "nontrivial": 30000, "cli_runs": 150, "runs_with_from_date": 50000, "same_instant_transfer_then_sale_cases": 3000, "dust_then_real_overdraft_runs": 20000, "cli_runs_with_in_fee_overdraft": 15, "unique_id_independence_pairs": 3000}},
 }
 PROFILES = [
     Profile(n_exchanges=2, n_holders=1, p_intra=0.25, tie_prob=0.3, max_events=16),
@@ -235,6 +235,21 @@ def run_shard(ctx: Any) -> None:
                 for allow in (False, True):
                     _observe(ctx, ip, hist, {1970: rng.choice(METHODS)}, allow, None, "same-instant-transfer-then-sale")
                 ctx.count("same_instant_transfer_then_sale_cases")
+        if index % 6 == 3:
+            # legs of one on-chain transaction at one instant: the verdict is a function of the coin flows, not of the unique ids
+            from rpv import families
+
+            chain = families.same_instant_transfer_chain(rng)
+            distinct_ids = copy.deepcopy(chain)
+            for k, r in enumerate(distinct_ids["rows"]):
+                if r["t"] == "INTRA":
+                    r["uid"] = f"{r['uid']}-{k}"
+            sched = {1970: rng.choice(METHODS)}
+            a, b = ip.run(chain, sched), ip.run(distinct_ids, sched)
+            ctx.count("executions", 2)
+            ctx.count("unique_id_independence_pairs")
+            if a.ok != b.ok:
+                ctx.violation("overdraft.verdict-depends-on-unique-ids", {"same_ids": "accepted" if a.ok else a.error[:160], "distinct_ids": "accepted" if b.ok else b.error[:160]}, {"hist": chain, "schedule": sched_json(sched), "allow_negative": False, "to": None, "from": None, "kind": "same-instant-chain"})
         index += ctx.nshards
         done += 1
     ctx.count("inputs", done)
@@ -250,6 +265,16 @@ def replay(ctx: Any, case: Dict[str, Any]) -> None:
         from rpv.checks import cli_slices
 
         cli_slices.c08_replay(ctx, case)
+        return
+    if case.get("kind") == "same-instant-chain":
+        ip = get_ip(ctx)
+        distinct_ids = copy.deepcopy(case["hist"])
+        for k, r in enumerate(distinct_ids["rows"]):
+            if r["t"] == "INTRA":
+                r["uid"] = f"{r['uid']}-{k}"
+        a, b = ip.run(case["hist"], sched_from_json(case["schedule"])), ip.run(distinct_ids, sched_from_json(case["schedule"]))
+        if a.ok != b.ok:
+            ctx.violation("overdraft.verdict-depends-on-unique-ids", {"same_ids": "accepted" if a.ok else a.error[:160], "distinct_ids": "accepted" if b.ok else b.error[:160]}, case)
         return
     _observe(ctx, get_ip(ctx), case["hist"], sched_from_json(case["schedule"]), case["allow_negative"], case["to"], case.get("kind", "replay"), from_s=case.get("from"))
 
